@@ -95,7 +95,7 @@ func oneModes(x *mon.Ctx, ar *arena, part string, s spec, n, al int, ms, mo dstM
 func gcmGrid(x *mon.Ctx) {
 	selfTest(x)
 	ar := &arena{}
-	reps := x.Scale(4, 120)
+	reps := x.Scale(4, 80)
 	i := 0
 	std := gcmSpec("lib", 12, 16)
 	// A: every plaintext length through the 128/64/16/tail phases, aad cycling
@@ -177,7 +177,7 @@ func gcmGrid(x *mon.Ctx) {
 func ccmGrid(x *mon.Ctx) {
 	selfTest(x)
 	ar := &arena{}
-	reps := x.Scale(2, 60)
+	reps := x.Scale(2, 40)
 	i := 0
 	// A: every (nonce size, tag size) with plaintext lengths cycling; general constructor
 	for ns := 7; ns <= 13; ns++ {
@@ -273,7 +273,7 @@ func lowWords(thorough bool) []uint32 {
 func gcmWrap(x *mon.Ctx) {
 	selfTest(x)
 	ar := &arena{}
-	reps := x.Scale(1, 20)
+	reps := x.Scale(1, 14)
 	lens := []int{1, 16, 17, 48, 63, 64, 65, 100, 127, 128, 129, 160, 192, 200, 255, 256, 257, 300, 384, 400, 513, 640, 1100}
 	i := 0
 	for _, lw := range lowWords(x.Thorough()) {
@@ -368,7 +368,7 @@ func tamper(x *mon.Ctx) {
 	}
 	jobs = append(jobs, job{ccmSpec("lib", 13, 4, true), short}, job{ccmSpec("lib", 7, 16, true), short}, job{ccmSpec("opaque", 12, 8, false), short[:8]}, job{ccmSpec("opaque", 9, 10, true), short[:6]})
 
-	reps := x.Scale(1, 20)
+	reps := x.Scale(1, 14)
 	i := 0
 	for _, j := range jobs {
 		for _, n := range j.lens {
@@ -385,8 +385,8 @@ func tamper(x *mon.Ctx) {
 	// long associated data (CCM 6-byte length header; GCM many GHASH blocks): positions sampled
 	for _, s := range []spec{ccmSpec("lib", 12, 16, false), ccmSpec("lib", 8, 6, true), gcmSpec("lib", 12, 16), gcmSpec("lib", 24, 16)} {
 		for r := 0; r < reps; r++ {
-			tamperCase(x, ar, s, 77, 65280+r, 1601)
-			tamperCase(x, ar, s, 4096+33, 20, 29)
+			tamperCase(x, ar, s, 77, 65280+r, 3203)
+			tamperCase(x, ar, s, 4096+33, 20, 61)
 		}
 	}
 }
